@@ -169,7 +169,7 @@ func (f *FormalParameterNode) String() string {
 
 	if f.Initialiser != nil {
 		buff.WriteString(" = ")
-		buff.WriteString(f.Initialiser.String())
+		writeExpressionWithoutModifier(&buff, f.Initialiser)
 	}
 
 	return buff.String()
@@ -351,7 +351,7 @@ func (n *MethodParameterNode) String() string {
 
 	if n.Initialiser != nil {
 		buff.WriteString(" = ")
-		buff.WriteString(n.Initialiser.String())
+		writeExpressionWithoutModifier(&buff, n.Initialiser)
 	}
 
 	return buff.String()
@@ -692,7 +692,7 @@ func (n *AttributeParameterNode) String() string {
 
 	if n.Initialiser != nil {
 		buff.WriteString(" = ")
-		buff.WriteString(n.Initialiser.String())
+		writeExpressionWithoutModifier(&buff, n.Initialiser)
 	}
 
 	return buff.String()
